@@ -6,12 +6,12 @@ use crate::iogen::*;
 use crate::json::J;
 use crate::rng::Rng;
 
-pub const RULE: &str = "case = one valid base file (generated with 1..3 records, or a bundled test file) of one format, from which malformed inputs are derived: EVERY prefix, single-byte substitution / deletion / insertion at every offset (quick: 3 sampled (operation, byte) pairs per offset; thorough: all) with bytes from {'>','[',']',':','/',tab,space,LF,CR,digit,letter,0x00,0x80,0xFF}, byte-order marks / stray terminators / NUL / blank lines in front of complete, unterminated and truncated bodies (with and without trailing junk), dropped final newline, ragged rows, over-long lines (the tokens of a line repeated 2-8 times), header without matrix, matrix without header, huge numbers, duplicated symbol rows; plus fixed inputs (empty, whitespace, random bytes, invalid UTF-8). Each input is given to the reader of its format (1 in 4 also to the three other readers) through a Cursor or a random chunking schedule (BufReader capacity 1..300, short reads, injected Interrupted). Oracle: Reader::new and every next() run under catch_unwind (panic = violation); the consumer stops at the first Err / None and may receive at most (input length + 2) records; a reader polling end-of-input more than 10000 times is a livelock (decided on logical steps, not on the clock). Non-trivial = input that differs from its base file; distinct = distinct (format reader, input bytes).";
+pub const RULE: &str = "case = one valid base file (generated with 1..3 records, or a bundled test file) of one format, from which malformed inputs are derived: EVERY prefix, single-byte substitution / deletion / insertion at every offset (quick: 3 sampled (operation, byte) pairs per offset; thorough: all) with bytes from {'>','[',']',':','/',tab,space,LF,CR,digit,letter,0x00,0x80,0xFF}, byte-order marks / stray terminators / NUL / blank lines in front of complete, unterminated and truncated bodies (with and without trailing junk), dropped final newline, ragged rows, over-long lines (the tokens of a line repeated 2-8 times), header without matrix, matrix without header, huge numbers, duplicated symbol rows; plus fixed inputs (empty, whitespace, random bytes, invalid UTF-8, a short unit such as `VV\n//\n`, `>`, a blank line repeated 3 / 300 / 60 000 times, every two-character tag in front of a TRANSFAC line). Each input is given to the reader of its format (1 in 4 also to the three other readers) through a Cursor or a random chunking schedule (BufReader capacity 1..300, short reads, injected Interrupted). Oracle: Reader::new and every next() run under catch_unwind (panic = violation); the consumer stops at the first Err / None and may receive at most (input length + 2) records; a reader polling end-of-input more than 10000 times is a livelock (decided on logical steps, not on the clock). Non-trivial = input that differs from its base file; distinct = distinct (format reader, input bytes).";
 
 pub const REQUIRED: &[&str] = &[
     "reader.jaspar", "reader.jaspar16", "reader.transfac", "reader.uniprobe", "reader.protein", "input.empty",
     "input.prefix", "input.substitution", "input.deletion", "input.insertion", "input.multibyte_insertion", "input.framing", "input.no_final_newline",
-    "input.ragged", "input.long_line", "input.header_only", "input.matrix_only", "input.huge_number", "input.duplicate_symbol",
+    "input.ragged", "input.long_line", "input.repetition", "input.tag_sweep", "input.header_only", "input.matrix_only", "input.huge_number", "input.duplicate_symbol",
     "input.random_bytes", "input.invalid_utf8", "outcome.error", "outcome.records", "schedule.chunked",
     "schedule.cursor", "cross_format",
 ];
@@ -59,7 +59,8 @@ impl Worker {
         let (rtx, rx) = std::sync::mpsc::channel::<JobResult>();
         let (ttx, trx) = std::sync::mpsc::channel::<u64>();
         std::thread::Builder::new()
-            .stack_size(32 << 20)
+            // the default stack of a Rust thread (2 MiB): what a library call may rely on
+            .stack_size(2 << 20)
             .spawn(move || {
                 let tid = std::fs::read_to_string("/proc/thread-self/stat")
                     .ok()
@@ -470,6 +471,47 @@ fn fixed_inputs(case: u64, rng: &mut Rng, rep: &mut Report) {
             feed(&mut worker, case, rng, rep, format, false, input, class, "fixed");
             if format != Format::Jaspar {
                 feed(&mut worker, case, rng, rep, format, true, input, class, "fixed");
+            }
+        }
+    }
+    // a short unit repeated many times: one call may have to get past all of them, which has to be
+    // done in constant stack space (a reader that recurses once per skipped block overflows)
+    {
+        const UNITS: [&[u8]; 12] = [b"VV\n//\n", b"VV x\nXX\n//\n", b"//\n", b"XX\n", b"\n", b">\n", b">", b"> x\n", b"#\n", b"A:\n", b" \n", b"\r\n"];
+        for unit in UNITS.iter() {
+            for &n in [3usize, 300, 60_000].iter() {
+                let mut input = Vec::with_capacity(unit.len() * n + 64);
+                for _ in 0..n {
+                    input.extend_from_slice(unit);
+                }
+                if rng.chance(0.5) {
+                    input.extend_from_slice(b">x\nA [1 2]\nC [1 2]\nG [1 2]\nT [1 2]\n");
+                }
+                rep.cover("input.repetition");
+                for &format in FORMATS.iter() {
+                    feed(&mut worker, case, rng, rep, format, false, &input, "repetition", "fixed");
+                }
+            }
+        }
+    }
+    // every two-character tag in front of a TRANSFAC line (field tags known to the parser must all
+    // be handled, unknown ones must be rejected or skipped - never `unreachable!()`)
+    {
+        const TAGCH: &[u8] = b"ABCDEFGHIJKLMNOPQRSTUVWXYZ0123456789";
+        let body = b"AC  M00001\nXX\nID  V$X\nXX\nP0      A      C      G      T\n01      1      2      3      4      N\n02      4      3      2      1      N\nXX\n//\n";
+        for &a in TAGCH.iter() {
+            for &b in TAGCH.iter() {
+                // as an extra field line before the matrix, and in place of the first tag
+                let mut v1 = Vec::with_capacity(body.len() + 16);
+                v1.extend_from_slice(&[a, b]);
+                v1.extend_from_slice(b"  some text; 12.\n");
+                v1.extend_from_slice(body);
+                let mut v2 = body.to_vec();
+                v2[0] = a;
+                v2[1] = b;
+                rep.cover("input.tag_sweep");
+                feed(&mut worker, case, rng, rep, Format::Transfac, false, &v1, "tag_sweep", "fixed");
+                feed(&mut worker, case, rng, rep, Format::Transfac, false, &v2, "tag_sweep", "fixed");
             }
         }
     }
